@@ -229,6 +229,11 @@ def run_check(prop, tier, seed):
     t0 = time.time()
     os.makedirs(WORK, exist_ok=True)
     cfg = families.PROPS[prop]
+    rd = os.path.join(ROOT, "replays")
+    if os.path.isdir(rd):
+        for fn in os.listdir(rd):
+            if fn.startswith(prop + "-"):
+                os.remove(os.path.join(rd, fn))
     violations = []     # (replay path, has_input)
     notes = []
     ev = {"property_id": prop, "tier": tier, "seed": seed, "level": cfg.get("level", "proof"),
